@@ -4,9 +4,11 @@ package c17
 import (
 	"context"
 	"fmt"
+	"os"
 	"strings"
 	"testing"
 
+	"github.com/gebn/bmc"
 	"github.com/gebn/bmc/pkg/ipmi"
 	"github.com/google/gopacket"
 	"pgregory.net/rapid"
@@ -290,7 +292,111 @@ func TestCommandValueReuse(t *testing.T) {
 	})
 }
 
+// TestSessionPairs: a session opened on a connection that has already carried
+// another session (different user, options and cipher-suite preferences, possibly
+// failed, used and closed) negotiates the same algorithms, and answers a command
+// the same way, as the same open on a fresh connection.
+func TestSessionPairs(t *testing.T) {
+	cat := hx.Catalogue()
+	suites := hx.Suites9()
+	ev.Check(t, "TestSessionPairs", ev.PickN(600, 60000), func(t *rapid.T) {
+		seed := rapid.Uint64().Draw(t, "seed")
+		genOpen := func(label string) (hx.Creds, []int) {
+			c := hx.GenCreds(suites).Draw(t, label)
+			n := rapid.IntRange(0, 3).Draw(t, label+"Prefs")
+			pref := make([]int, n)
+			for i := range pref {
+				pref[i] = rapid.IntRange(0, len(suites)-1).Draw(t, label+"Suite")
+			}
+			return c, pref
+		}
+		a, prefA := genOpen("a")
+		b, prefB := genOpen("b")
+		b.KG = a.KG
+		if b.User == a.User {
+			b.Password = a.Password
+		}
+		advertised := rapid.IntRange(1, 1<<9-1).Draw(t, "advertised") | 1<<uint(rapid.IntRange(0, 8).Draw(t, "alsoAdvertised"))
+		// SHA1/SHA1-96/AES and SHA256/SHA256-128/AES (the library's defaults for an
+		// empty preference list) are suites 0 and 8 of the nine
+		useA := rapid.Bool().Draw(t, "useA")
+		closeA := rapid.Bool().Draw(t, "closeA")
+		eb := rapid.SampledFrom(cat).Draw(t, "command")
+		draw := rapid.IntRange(0, 1<<20).Draw(t, "draw")
+		opts := func(c hx.Creds, pref []int) *bmc.V2SessionOpts {
+			o := c.Opts()
+			o.CipherSuites = nil
+			for _, i := range pref {
+				o.CipherSuites = append(o.CipherSuites, hx.LibSuite(suites[i]))
+			}
+			return o
+		}
+		run := func(withA bool) string {
+			w := hx.NewWorld(seed, true)
+			a.Install(w.BMC)
+			w.BMC.Users[b.User] = b.Password
+			var recs []byte
+			for i, s := range suites {
+				if advertised&(1<<uint(i)) != 0 {
+					r := ref.SuiteRecord{ID: byte(i + 1), Auth: s.Auth, Integs: []byte{s.Integ}, Confs: []byte{s.Conf}}
+					recs = append(recs, r.Bytes()...)
+				}
+			}
+			w.BMC.SuiteRecords = recs
+			if withA {
+				ctx, cancel := w.Ctx(40)
+				sa, err := w.T.NewV2Session(ctx, opts(a, prefA))
+				cancel()
+				if err == nil && useA {
+					ca := prepare(rapid.SampledFrom(cat).Example(draw), w.BMC, draw+1)
+					ctx, cancel := w.Ctx(3)
+					sa.SendCommand(ctx, ca.Cmd)
+					cancel()
+				}
+				if err == nil && closeA {
+					ctx, cancel := w.Ctx(3)
+					sa.Close(ctx)
+					cancel()
+				}
+			}
+			// preparing A's command may have re-generated BMC-side data
+			w.BMC.SuiteRecords = recs
+			ctx, cancel := w.Ctx(40)
+			sb, err := w.T.NewV2Session(ctx, opts(b, prefB))
+			cancel()
+			if err != nil {
+				if os.Getenv("C17_DEBUG") != "" {
+					fmt.Println("DEBUG open B:", err, w.BMC.AllProblems())
+				}
+				return "open failed"
+			}
+			out := fmt.Sprintf("auth=%v integrity=%v confidentiality=%v", sb.AuthenticationAlgorithm, sb.IntegrityAlgorithm, sb.ConfidentialityAlgorithm)
+			cb := prepare(eb, w.BMC, draw+2)
+			ctx, cancel = w.Ctx(3)
+			code, err := sb.SendCommand(ctx, cb.Cmd)
+			cancel()
+			if err != nil {
+				return out + fmt.Sprintf(" %s: code=%v error", cb.Name, code)
+			}
+			return out + fmt.Sprintf(" %s: code=%v %s", cb.Name, code, cb.Summary())
+		}
+		used, fresh := run(true), run(false)
+		ev.Eval()
+		if used != fresh {
+			t.Fatalf("session opened with preferences %v after an earlier session with preferences %v (advertised %09b) differs from the same open on a fresh connection:\n used:  %s\n fresh: %s", prefB, prefA, advertised, used, fresh)
+		}
+		if fresh != "open failed" {
+			ev.Label("session-pair:second-open-established")
+			if len(prefA) != 1 && len(prefB) != 1 {
+				ev.Label("session-pair:both-discover")
+			}
+			ev.NonTrivial(fmt.Sprintf("sesspair|%v|%v|%d|%s", prefA, prefB, advertised, fresh))
+		}
+		ev.Sample(map[string]any{"part": "session pairs", "first preferences": prefA, "second preferences": prefB, "advertised": fmt.Sprintf("%09b", advertised), "result": fresh})
+	})
+}
+
 func TestCoverage(t *testing.T) {
-	ev.RequireLabels(t, 1, "pairs-complete", "layer-branch-differs:GetDeviceIDRsp", "layer-branch-differs:GetSessionInfoRsp", "layer-branch-differs:GetChassisStatusRsp",
+	ev.RequireLabels(t, 1, "pairs-complete", "session-pair:second-open-established", "session-pair:both-discover", "layer-branch-differs:GetDeviceIDRsp", "layer-branch-differs:GetSessionInfoRsp", "layer-branch-differs:GetChassisStatusRsp",
 		"layer-branch-differs:OpenSessionRsp", "layer-branch-differs:RAKPMessage2", "layer-branch-differs:GetDCMISensorInfoRsp", "layer-branch-differs:DCMICaps", "wrapper:V1Session", "wrapper:V2Session", "wrapper:Message", "wrapper-after-rejected:V2Session")
 }
